@@ -290,6 +290,7 @@ def check_cont(case, out):
     out.sample = {"n_rows": len(rows), "Z": Z, "affine": case["affine"]}
 
 
+THOROUGH_SCALE = 3  # thorough-tier example counts are n["thorough"] x this (one thorough run then takes roughly 5-10 minutes on 16 cores)
 SUBCHECKS = [
     Sub("power_divergence", check_disc, strategy=lambda tier: disc_case(), n={"quick": 80, "thorough": 1500},
         shards={"quick": 8, "thorough": 16}, doc="power_divergence and named wrappers vs hand stratification + scipy per stratum; symmetry, row/Z order, relabelling, independent tables, boolean verdict"),
